@@ -111,7 +111,7 @@ class Glue:
         hv, vmax = V('hdr_version'), V('max_version')
         n_paths = 0
         for k in range(kmax + 1):
-            rq = RtRequest(k, ['GET', 'PUT', 'DELETE', 'HEAD'], versioned=False, tag=f'g{k}')
+            rq = RtRequest(k, ['GET', 'PUT', 'DELETE', 'HEAD', 'OPTIONS'], versioned=False, tag=f'g{k}')
             uri, remote = UriV('request-uri'), Opaque('remote-addr')
             hmap_cell = []
             def h(ex):
